@@ -72,6 +72,10 @@ def loop_contract(R, node):
     return fr.contract, o, fr.contract.invariants.get(o)
 
 
+def fr_ord(R, node):
+    return R.frames[-1].loop_ord.get(id(node))
+
+
 def havoc_var(R, env, name, kinds):
     cur = env.lookup(name) if env.has(name) else None
     if name in kinds:
@@ -191,6 +195,8 @@ def exec_while(R, node, env):
     for nm in mod:
         havoc_var(R, env, nm, kinds)
     check_invs(R, c, invs, env, {}, 'assume', assume=True)
+    for lbl, fn in c.loop_hints.get(o, []):
+        R.eval_clause(c, fn, LazyValues(R, env, {}))
     t = R.truth(R.eval(node.test, env))
     if R.choose(t):
         try:
@@ -295,6 +301,8 @@ def for_indexed(R, node, env, it, c, invs, kinds, mod, tnames):
     if R.choose(i.e < n):
         x, _ = elem_at(R, it, i.e)
         R.assign(node.target, x, env)
+        for lbl, fn in c.loop_hints.get(fr_ord(R, node), []):
+            R.eval_clause(c, fn, LazyValues(R, env, {'_i': i, '_n': ZV(n, 'int')}))
         try:
             R.exec_block(node.body, env)
         except BreakSig:
